@@ -1,10 +1,28 @@
 import ArimModel.Geometry
+import ArimProofs.Lemmas.Geometry
 import Mathlib.Tactic.Ring
 import Mathlib.Tactic.LinearCombination
-/-! # C17 — coordinate changes are exact isometries; grids and distances are as specified -/
+import Mathlib.Tactic.Linarith
+import Mathlib.Tactic.FieldSimp
+import Mathlib.Tactic.Positivity
+import Mathlib.Algebra.Order.Floor.Ring
+import Mathlib.Algebra.Order.Field.Basic
+import Mathlib.Analysis.SpecialFunctions.Trigonometric.Inverse
+import Mathlib.Analysis.SpecialFunctions.Complex.Arg
+/-! # C17 — coordinate changes are exact isometries; grids and distances are as specified
+
+1. coordinate changes (`to_gcs`/`from_gcs`, `CoordinateSystem`, `rotate`) are mutually inverse
+   isometries for orthonormal bases;
+2. the rotation matrices are proper (orthonormal, determinant one); proper rotations preserve the
+   cross product;
+3. `direct_isometry_3d` sends the departure frame to the arrival frame by a proper rotation;
+4. grids: `linspace`, number of points of an axis, flattening order, `points_in_rectbox`;
+5. spherical coordinates invert back to Cartesian ones (over `ℝ`);
+6. non-vacuity examples on rational data. -/
 namespace Arim.C17
 open Arim Arim.Geo
 
+section algebra
 variable {K : Type} [CommRing K]
 
 /-- orthonormality of the rows of a basis matrix, written out -/
@@ -16,6 +34,7 @@ structure Orthonormal (b : M3 K) : Prop where
   o02 : dot b.r0 b.r2 = 0
   o12 : dot b.r1 b.r2 = 0
 
+omit [CommRing K] in
 @[ext] theorem P3.ext' {a b : P3 K} (hx : a.x = b.x) (hy : a.y = b.y) (hz : a.z = b.z) : a = b := by
   cases a; cases b; simp_all
 
@@ -32,12 +51,18 @@ theorem from_to_gcs (c o : P3 K) (b : M3 K) (h : Orthonormal b) : fromGcs (toGcs
   · linear_combination x * o01 + y * n1 + z * o12
   · linear_combination x * o02 + y * o12 + z * n2
 
+/-- the axis rotation matrices are orthonormal whenever `c² + s² = 1` -/
+theorem rotX_orthonormal (c s : K) (h : c * c + s * s = 1) : Orthonormal (rotX 0 1 c s) := by
+  constructor <;> simp only [rotX, dot] <;> first | (linear_combination h) | ring
+theorem rotY_orthonormal (c s : K) (h : c * c + s * s = 1) : Orthonormal (rotY 0 1 c s) := by
+  constructor <;> simp only [rotY, dot] <;> first | (linear_combination h) | ring
+theorem rotZ_orthonormal (c s : K) (h : c * c + s * s = 1) : Orthonormal (rotZ 0 1 c s) := by
+  constructor <;> simp only [rotZ, dot] <;> first | (linear_combination h) | ring
+
 /-- squared Euclidean norm -/
 def nsq (v : P3 K) : K := dot v v
 
-/-- `from_gcs` preserves distances (isometry) for an orthonormal basis whose transpose is
-orthonormal too (true of every orthonormal basis of a field; stated as a hypothesis so that the
-theorem holds over any commutative ring) -/
+/-- `to_gcs` preserves distances (isometry) for a basis with orthonormal rows -/
 theorem to_gcs_isometry (c c' o : P3 K) (b : M3 K) (h : Orthonormal b) :
     nsq (vsub (toGcs c b o) (toGcs c' b o)) = nsq (vsub c c') := by
   obtain ⟨n0, n1, n2, o01, o02, o12⟩ := h
@@ -50,12 +75,772 @@ theorem to_gcs_isometry (c c' o : P3 K) (b : M3 K) (h : Orthonormal b) :
   linear_combination (x - x') ^ 2 * n0 + (y - y') ^ 2 * n1 + (z - z') ^ 2 * n2
     + 2 * (x - x') * (y - y') * o01 + 2 * (x - x') * (z - z') * o02 + 2 * (y - y') * (z - z') * o12
 
-/-- the axis rotation matrices are orthonormal whenever `c² + s² = 1` -/
-theorem rotX_orthonormal (c s : K) (h : c * c + s * s = 1) : Orthonormal (rotX 0 1 c s) := by
-  constructor <;> simp only [rotX, dot] <;> first | (linear_combination h) | ring
-theorem rotY_orthonormal (c s : K) (h : c * c + s * s = 1) : Orthonormal (rotY 0 1 c s) := by
-  constructor <;> simp only [rotY, dot] <;> first | (linear_combination h) | ring
-theorem rotZ_orthonormal (c s : K) (h : c * c + s * s = 1) : Orthonormal (rotZ 0 1 c s) := by
-  constructor <;> simp only [rotZ, dot] <;> first | (linear_combination h) | ring
+/-! ## 1. coordinate changes -/
 
+/-- `Orthonormal b` is `B Bᵀ = 1` for the corresponding Mathlib matrix -/
+theorem orthonormal_iff_toMatrix (b : M3 K) :
+    Orthonormal b ↔ toMatrix b * (toMatrix b).transpose = 1 := by
+  rw [← rows_orthonormal_iff_toMatrix]
+  exact ⟨fun ⟨a, b, c, d, e, f⟩ => ⟨a, b, c, d, e, f⟩, fun ⟨a, b, c, d, e, f⟩ => ⟨a, b, c, d, e, f⟩⟩
+
+/-- rows orthonormal ⇒ columns orthonormal (`B Bᵀ = 1 ⇒ Bᵀ B = 1`), over any commutative ring -/
+theorem orthonormal_transpose (b : M3 K) (h : Orthonormal b) : Orthonormal b.transpose := by
+  rw [orthonormal_iff_toMatrix] at h ⊢
+  exact toMatrix_transpose_mul_of_mul_transpose b h
+
+omit [CommRing K] in
+theorem transpose_transpose (b : M3 K) : b.transpose.transpose = b := by
+  obtain ⟨⟨a1, a2, a3⟩, ⟨b1, b2, b3⟩, ⟨c1, c2, c3⟩⟩ := b
+  rfl
+
+theorem orthonormal_transpose_iff (b : M3 K) : Orthonormal b.transpose ↔ Orthonormal b :=
+  ⟨fun h => by simpa [transpose_transpose] using orthonormal_transpose _ h, orthonormal_transpose b⟩
+
+/-- `to_gcs (from_gcs p) = p` needs only the *columns* of the basis matrix to be orthonormal -/
+theorem to_from_gcs_of_cols (p o : P3 K) (b : M3 K) (h' : Orthonormal b.transpose) :
+    toGcs (fromGcs p b o) b o = p := by
+  obtain ⟨n0, n1, n2, o01, o02, o12⟩ := h'
+  obtain ⟨⟨a1, a2, a3⟩, ⟨b1, b2, b3⟩, ⟨c1, c2, c3⟩⟩ := b
+  obtain ⟨x, y, z⟩ := p
+  obtain ⟨ox, oy, oz⟩ := o
+  simp only [dot, M3.transpose, M3.col0, M3.col1, M3.col2] at n0 n1 n2 o01 o02 o12
+  apply P3.ext' <;>
+    simp only [fromGcs, toGcs, mulVec, vecMul, vadd, vsub, dot, M3.col0, M3.col1, M3.col2]
+  · linear_combination (x - ox) * n0 + (y - oy) * o01 + (z - oz) * o02
+  · linear_combination (x - ox) * o01 + (y - oy) * n1 + (z - oz) * o12
+  · linear_combination (x - ox) * o02 + (y - oy) * o12 + (z - oz) * n2
+
+/-- `to_gcs (from_gcs p) = p`: the other direction of the inverse (the row hypothesis is in fact
+    not used, see `to_from_gcs_of_cols`; and it implies the column one, see `to_from_gcs'`) -/
+theorem to_from_gcs (p o : P3 K) (b : M3 K) (_h : Orthonormal b) (h' : Orthonormal b.transpose) :
+    toGcs (fromGcs p b o) b o = p := to_from_gcs_of_cols p o b h'
+
+/-- over a commutative ring row-orthonormality alone suffices -/
+theorem to_from_gcs' (p o : P3 K) (b : M3 K) (h : Orthonormal b) :
+    toGcs (fromGcs p b o) b o = p := to_from_gcs_of_cols p o b (orthonormal_transpose b h)
+
+/-- `M v` has the norm of `v` when the columns of `M` are orthonormal -/
+theorem nsq_mulVec (m : M3 K) (v : P3 K) (h' : Orthonormal m.transpose) :
+    nsq (mulVec m v) = nsq v := by
+  obtain ⟨n0, n1, n2, o01, o02, o12⟩ := h'
+  obtain ⟨⟨a1, a2, a3⟩, ⟨b1, b2, b3⟩, ⟨c1, c2, c3⟩⟩ := m
+  obtain ⟨x, y, z⟩ := v
+  simp only [dot, M3.transpose, M3.col0, M3.col1, M3.col2] at n0 n1 n2 o01 o02 o12
+  simp only [nsq, mulVec, dot]
+  linear_combination x ^ 2 * n0 + y ^ 2 * n1 + z ^ 2 * n2
+    + 2 * x * y * o01 + 2 * x * z * o02 + 2 * y * z * o12
+
+/-- more generally `M` preserves the dot product -/
+theorem dot_mulVec (m : M3 K) (v w : P3 K) (h' : Orthonormal m.transpose) :
+    dot (mulVec m v) (mulVec m w) = dot v w := by
+  obtain ⟨n0, n1, n2, o01, o02, o12⟩ := h'
+  obtain ⟨⟨a1, a2, a3⟩, ⟨b1, b2, b3⟩, ⟨c1, c2, c3⟩⟩ := m
+  obtain ⟨x, y, z⟩ := v
+  obtain ⟨x', y', z'⟩ := w
+  simp only [dot, M3.transpose, M3.col0, M3.col1, M3.col2] at n0 n1 n2 o01 o02 o12
+  simp only [mulVec, dot]
+  linear_combination x * x' * n0 + y * y' * n1 + z * z' * n2
+    + (x * y' + y * x') * o01 + (x * z' + z * x') * o02 + (y * z' + z * y') * o12
+
+theorem mulVec_vsub (m : M3 K) (v w : P3 K) : vsub (mulVec m v) (mulVec m w) = mulVec m (vsub v w) := by
+  obtain ⟨⟨a1, a2, a3⟩, ⟨b1, b2, b3⟩, ⟨c1, c2, c3⟩⟩ := m
+  obtain ⟨x, y, z⟩ := v
+  obtain ⟨x', y', z'⟩ := w
+  apply P3.ext' <;> simp only [mulVec, vsub, dot] <;> ring
+
+theorem mulVec_vadd (m : M3 K) (v w : P3 K) : vadd (mulVec m v) (mulVec m w) = mulVec m (vadd v w) := by
+  obtain ⟨⟨a1, a2, a3⟩, ⟨b1, b2, b3⟩, ⟨c1, c2, c3⟩⟩ := m
+  obtain ⟨x, y, z⟩ := v
+  obtain ⟨x', y', z'⟩ := w
+  apply P3.ext' <;> simp only [mulVec, vadd, dot] <;> ring
+
+theorem vsub_vsub_cancel (p p' o : P3 K) : vsub (vsub p o) (vsub p' o) = vsub p p' := by
+  apply P3.ext' <;> simp only [vsub] <;> ring
+
+theorem vadd_vsub_cancel_right (p p' o : P3 K) : vsub (vadd p o) (vadd p' o) = vsub p p' := by
+  apply P3.ext' <;> simp only [vsub, vadd] <;> ring
+
+theorem vadd_vsub (x y : P3 K) : vadd (vsub x y) y = x := by
+  apply P3.ext' <;> simp only [vsub, vadd] <;> ring
+
+theorem vsub_vadd (x y : P3 K) : vsub (vadd x y) y = x := by
+  apply P3.ext' <;> simp only [vsub, vadd] <;> ring
+
+theorem vadd_vsub_left (x y : P3 K) : vsub (vadd x y) x = y := by
+  apply P3.ext' <;> simp only [vsub, vadd] <;> ring
+
+/-- `from_gcs` is an isometry when the columns of the basis matrix are orthonormal -/
+theorem from_gcs_isometry (p p' o : P3 K) (b : M3 K) (h' : Orthonormal b.transpose) :
+    nsq (vsub (fromGcs p b o) (fromGcs p' b o)) = nsq (vsub p p') := by
+  simp only [fromGcs]
+  rw [mulVec_vsub, vsub_vsub_cancel, nsq_mulVec _ _ h']
+
+theorem from_gcs_isometry' (p p' o : P3 K) (b : M3 K) (h : Orthonormal b) :
+    nsq (vsub (fromGcs p b o) (fromGcs p' b o)) = nsq (vsub p p') :=
+  from_gcs_isometry p p' o b (orthonormal_transpose b h)
+
+/-! ### `rotate` -/
+
+theorem rotate_centre_fixed (r : M3 K) (o : P3 K) : rotate o r (some o) = o := by
+  obtain ⟨⟨a1, a2, a3⟩, ⟨b1, b2, b3⟩, ⟨c1, c2, c3⟩⟩ := r
+  obtain ⟨x, y, z⟩ := o
+  apply P3.ext' <;> simp only [rotate, mulVec, vadd, vsub, dot] <;> ring
+
+theorem rotate_vsub (c c' : P3 K) (r : M3 K) (centre : Option (P3 K)) :
+    vsub (rotate c r centre) (rotate c' r centre) = mulVec r (vsub c c') := by
+  cases centre with
+  | none => simp only [rotate, mulVec_vsub]
+  | some o => simp only [rotate, vadd_vsub_cancel_right, mulVec_vsub, vsub_vsub_cancel]
+
+/-- `rotate` (about any centre, or none) is an isometry when the columns of `r` are orthonormal -/
+theorem rotate_isometry (c c' : P3 K) (r : M3 K) (centre : Option (P3 K))
+    (h' : Orthonormal r.transpose) :
+    nsq (vsub (rotate c r centre) (rotate c' r centre)) = nsq (vsub c c') := by
+  rw [rotate_vsub, nsq_mulVec _ _ h']
+
+theorem rotate_isometry' (c c' : P3 K) (r : M3 K) (centre : Option (P3 K)) (h : Orthonormal r) :
+    nsq (vsub (rotate c r centre) (rotate c' r centre)) = nsq (vsub c c') :=
+  rotate_isometry c c' r centre (orthonormal_transpose r h)
+
+/-! ### cross product and coordinate systems -/
+
+/-- Lagrange's identity -/
+theorem cross_nsq (i j : P3 K) :
+    dot (cross i j) (cross i j) = dot i i * dot j j - dot i j * dot i j := by
+  simp only [dot, cross]; ring
+
+theorem dot_cross_left (i j : P3 K) : dot i (cross i j) = 0 := by
+  simp only [dot, cross]; ring
+theorem dot_cross_right (i j : P3 K) : dot j (cross i j) = 0 := by
+  simp only [dot, cross]; ring
+
+/-- if `î, ĵ` are orthonormal then `(î, ĵ, î × ĵ)` is an orthonormal triple -/
+theorem frame_orthonormal (i j : P3 K) (hi : dot i i = 1) (hj : dot j j = 1) (hij : dot i j = 0) :
+    Orthonormal ⟨i, j, cross i j⟩ := by
+  refine ⟨hi, hj, ?_, hij, dot_cross_left _ _, dot_cross_right _ _⟩
+  show dot (cross i j) (cross i j) = 1
+  rw [cross_nsq, hi, hj, hij]; ring
+
+theorem cs_khat_orthonormal (cs : CS K) (hi : dot cs.i cs.i = 1) (hj : dot cs.j cs.j = 1)
+    (hij : dot cs.i cs.j = 0) : Orthonormal cs.rows :=
+  frame_orthonormal cs.i cs.j hi hj hij
+
+theorem vecMul_transpose (v : P3 K) (m : M3 K) : vecMul v m.transpose = mulVec m v := by
+  obtain ⟨⟨a1, a2, a3⟩, ⟨b1, b2, b3⟩, ⟨c1, c2, c3⟩⟩ := m
+  obtain ⟨x, y, z⟩ := v
+  apply P3.ext' <;> simp only [vecMul, mulVec, dot, M3.transpose, M3.col0, M3.col1, M3.col2] <;> ring
+
+/-- `CoordinateSystem.convert_from_gcs` is `from_gcs` with the basis vectors as rows -/
+theorem cs_fromGcs_eq (cs : CS K) (p : P3 K) : cs.fromGcs p = fromGcs p cs.rows cs.origin := by
+  simp only [CS.fromGcs, fromGcs, vecMul_transpose]
+
+theorem cs_toGcs_eq (cs : CS K) (c : P3 K) : cs.toGcs c = toGcs c cs.rows cs.origin := rfl
+
+/-- `convert_to_gcs ∘ convert_from_gcs = id` when the columns of `rows` are orthonormal -/
+theorem cs_from_to (cs : CS K) (p : P3 K) (h' : Orthonormal cs.rows.transpose) :
+    cs.toGcs (cs.fromGcs p) = p := by
+  rw [cs_fromGcs_eq]; exact to_from_gcs_of_cols p cs.origin cs.rows h'
+
+/-- `convert_from_gcs ∘ convert_to_gcs = id` when `(î, ĵ, î × ĵ)` is orthonormal -/
+theorem cs_to_from (cs : CS K) (c : P3 K) (h : Orthonormal cs.rows) :
+    cs.fromGcs (cs.toGcs c) = c := by
+  rw [cs_fromGcs_eq]; exact from_to_gcs c cs.origin cs.rows h
+
+/-- both directions for a coordinate system with orthonormal `î, ĵ` -/
+theorem cs_inverse_of_unit (cs : CS K) (hi : dot cs.i cs.i = 1) (hj : dot cs.j cs.j = 1)
+    (hij : dot cs.i cs.j = 0) :
+    (∀ p, cs.toGcs (cs.fromGcs p) = p) ∧ (∀ c, cs.fromGcs (cs.toGcs c) = c) :=
+  have h := cs_khat_orthonormal cs hi hj hij
+  ⟨fun p => cs_from_to cs p (orthonormal_transpose _ h), fun c => cs_to_from cs c h⟩
+
+/-! ### `CoordinateSystem.translate` / `rotate` -/
+
+theorem cs_translate_basis (cs : CS K) (v : P3 K) :
+    (cs.translate v).i = cs.i ∧ (cs.translate v).j = cs.j ∧ (cs.translate v).origin = vadd cs.origin v :=
+  ⟨rfl, rfl, rfl⟩
+
+/-- rotating a coordinate system rotates its basis vectors by `r` (whatever the centre) -/
+theorem cs_rotate_basis (cs : CS K) (r : M3 K) (centre : Option (P3 K)) :
+    (cs.rotate r centre).i = mulVec r cs.i ∧ (cs.rotate r centre).j = mulVec r cs.j ∧
+    (cs.rotate r centre).origin = rotate cs.origin r centre := by
+  refine ⟨?_, ?_, rfl⟩
+  · show vsub (rotate (vadd cs.origin cs.i) r centre) (rotate cs.origin r centre) = _
+    rw [rotate_vsub, vadd_vsub_left]
+  · show vsub (rotate (vadd cs.origin cs.j) r centre) (rotate cs.origin r centre) = _
+    rw [rotate_vsub, vadd_vsub_left]
+
+/-- a rotated coordinate system keeps orthonormal `î, ĵ` when the columns of `r` are orthonormal -/
+theorem cs_rotate_unit (cs : CS K) (r : M3 K) (centre : Option (P3 K)) (h' : Orthonormal r.transpose)
+    (hi : dot cs.i cs.i = 1) (hj : dot cs.j cs.j = 1) (hij : dot cs.i cs.j = 0) :
+    dot (cs.rotate r centre).i (cs.rotate r centre).i = 1 ∧
+    dot (cs.rotate r centre).j (cs.rotate r centre).j = 1 ∧
+    dot (cs.rotate r centre).i (cs.rotate r centre).j = 0 := by
+  obtain ⟨ei, ej, -⟩ := cs_rotate_basis cs r centre
+  rw [ei, ej, dot_mulVec _ _ _ h', dot_mulVec _ _ _ h', dot_mulVec _ _ _ h']
+  exact ⟨hi, hj, hij⟩
+
+/-! ## 2. rotation matrices are proper -/
+
+/-- determinant of a 3×3 matrix: the triple product of its rows -/
+def det (m : M3 K) : K := dot m.r0 (cross m.r1 m.r2)
+
+/-- the axis rotation matrices have determinant one whenever `c² + s² = 1` -/
+theorem rotX_det (c s : K) (h : c * c + s * s = 1) : det (rotX 0 1 c s) = 1 := by
+  simp only [det, rotX, dot, cross]; linear_combination h
+theorem rotY_det (c s : K) (h : c * c + s * s = 1) : det (rotY 0 1 c s) = 1 := by
+  simp only [det, rotY, dot, cross]; linear_combination h
+theorem rotZ_det (c s : K) (h : c * c + s * s = 1) : det (rotZ 0 1 c s) = 1 := by
+  simp only [det, rotZ, dot, cross]; linear_combination h
+
+/-- the determinant is multiplicative -/
+theorem det_mmul (a b : M3 K) : det (mmul a b) = det a * det b := by
+  obtain ⟨⟨a1, a2, a3⟩, ⟨b1, b2, b3⟩, ⟨c1, c2, c3⟩⟩ := a
+  obtain ⟨⟨d1, d2, d3⟩, ⟨e1, e2, e3⟩, ⟨f1, f2, f3⟩⟩ := b
+  simp only [det, mmul, vecMul, dot, cross, M3.col0, M3.col1, M3.col2]; ring
+
+theorem det_transpose (a : M3 K) : det a.transpose = det a := by
+  obtain ⟨⟨a1, a2, a3⟩, ⟨b1, b2, b3⟩, ⟨c1, c2, c3⟩⟩ := a
+  simp only [det, dot, cross, M3.transpose, M3.col0, M3.col1, M3.col2]; ring
+
+theorem transpose_mmul (a b : M3 K) : (mmul a b).transpose = mmul b.transpose a.transpose := by
+  obtain ⟨⟨a1, a2, a3⟩, ⟨b1, b2, b3⟩, ⟨c1, c2, c3⟩⟩ := a
+  obtain ⟨⟨d1, d2, d3⟩, ⟨e1, e2, e3⟩, ⟨f1, f2, f3⟩⟩ := b
+  simp only [mmul, vecMul, dot, M3.transpose, M3.col0, M3.col1, M3.col2, M3.mk.injEq, P3.mk.injEq]
+  refine ⟨⟨?_, ?_, ?_⟩, ⟨?_, ?_, ?_⟩, ⟨?_, ?_, ?_⟩⟩ <;> ring
+
+/-- a product of matrices with orthonormal rows has orthonormal rows -/
+theorem mmul_orthonormal_rows (a b : M3 K) (ha : Orthonormal a) (hb : Orthonormal b) :
+    Orthonormal (mmul a b) := by
+  obtain ⟨p0, p1, p2, p01, p02, p12⟩ := ha
+  obtain ⟨n0, n1, n2, o01, o02, o12⟩ := hb
+  obtain ⟨⟨a1, a2, a3⟩, ⟨b1, b2, b3⟩, ⟨c1, c2, c3⟩⟩ := a
+  obtain ⟨⟨d1, d2, d3⟩, ⟨e1, e2, e3⟩, ⟨f1, f2, f3⟩⟩ := b
+  simp only [dot] at p0 p1 p2 p01 p02 p12 n0 n1 n2 o01 o02 o12
+  constructor <;> simp only [mmul, vecMul, dot, M3.col0, M3.col1, M3.col2]
+  · linear_combination a1 * a1 * n0 + a2 * a2 * n1 + a3 * a3 * n2 + (a1 * a2 + a2 * a1) * o01
+      + (a1 * a3 + a3 * a1) * o02 + (a2 * a3 + a3 * a2) * o12 + p0
+  · linear_combination b1 * b1 * n0 + b2 * b2 * n1 + b3 * b3 * n2 + (b1 * b2 + b2 * b1) * o01
+      + (b1 * b3 + b3 * b1) * o02 + (b2 * b3 + b3 * b2) * o12 + p1
+  · linear_combination c1 * c1 * n0 + c2 * c2 * n1 + c3 * c3 * n2 + (c1 * c2 + c2 * c1) * o01
+      + (c1 * c3 + c3 * c1) * o02 + (c2 * c3 + c3 * c2) * o12 + p2
+  · linear_combination a1 * b1 * n0 + a2 * b2 * n1 + a3 * b3 * n2 + (a1 * b2 + a2 * b1) * o01
+      + (a1 * b3 + a3 * b1) * o02 + (a2 * b3 + a3 * b2) * o12 + p01
+  · linear_combination a1 * c1 * n0 + a2 * c2 * n1 + a3 * c3 * n2 + (a1 * c2 + a2 * c1) * o01
+      + (a1 * c3 + a3 * c1) * o02 + (a2 * c3 + a3 * c2) * o12 + p02
+  · linear_combination b1 * c1 * n0 + b2 * c2 * n1 + b3 * c3 * n2 + (b1 * c2 + b2 * c1) * o01
+      + (b1 * c3 + b3 * c1) * o02 + (b2 * c3 + b3 * c2) * o12 + p12
+
+/-- a product of matrices with orthonormal rows and columns has orthonormal rows and columns -/
+theorem mmul_orthonormal (a b : M3 K) (ha : Orthonormal a) (ha' : Orthonormal a.transpose)
+    (hb : Orthonormal b) (hb' : Orthonormal b.transpose) :
+    Orthonormal (mmul a b) ∧ Orthonormal (mmul a b).transpose := by
+  refine ⟨mmul_orthonormal_rows a b ha hb, ?_⟩
+  rw [transpose_mmul]
+  exact mmul_orthonormal_rows _ _ hb' ha'
+
+/-- yaw–pitch–roll matrix built from any three (cos, sin) pairs on the unit circle is a proper
+    rotation -/
+theorem rotYpr_proper (cy sy cp sp cr sr : K) (hy : cy * cy + sy * sy = 1)
+    (hp : cp * cp + sp * sp = 1) (hr : cr * cr + sr * sr = 1) :
+    Orthonormal (rotYpr 0 1 cy sy cp sp cr sr) ∧ det (rotYpr 0 1 cy sy cp sp cr sr) = 1 := by
+  unfold rotYpr
+  refine ⟨mmul_orthonormal_rows _ _ (mmul_orthonormal_rows _ _ (rotZ_orthonormal cy sy hy)
+    (rotY_orthonormal cp sp hp)) (rotX_orthonormal cr sr hr), ?_⟩
+  rw [det_mmul, det_mmul, rotZ_det _ _ hy, rotY_det _ _ hp, rotX_det _ _ hr]; ring
+
+theorem rotYpr_orthonormal_cols (cy sy cp sp cr sr : K) (hy : cy * cy + sy * sy = 1)
+    (hp : cp * cp + sp * sp = 1) (hr : cr * cr + sr * sr = 1) :
+    Orthonormal (rotYpr 0 1 cy sy cp sp cr sr).transpose :=
+  orthonormal_transpose _ (rotYpr_proper cy sy cp sp cr sr hy hp hr).1
+
+/-- for a proper rotation every row is the cross product of the other two (the matrix equals its
+    cofactor matrix) -/
+theorem proper_rows (m : M3 K) (h : Orthonormal m) (hd : det m = 1) :
+    cross m.r1 m.r2 = m.r0 ∧ cross m.r2 m.r0 = m.r1 ∧ cross m.r0 m.r1 = m.r2 := by
+  obtain ⟨n0, n1, n2, o01, o02, o12⟩ := orthonormal_transpose m h
+  obtain ⟨⟨a1, a2, a3⟩, ⟨b1, b2, b3⟩, ⟨c1, c2, c3⟩⟩ := m
+  simp only [dot, M3.transpose, M3.col0, M3.col1, M3.col2] at n0 n1 n2 o01 o02 o12
+  simp only [det, dot, cross] at hd
+  refine ⟨?_, ?_, ?_⟩ <;> apply P3.ext' <;> simp only [cross]
+  · linear_combination (-(b2 * c3 - b3 * c2)) * n0 - (b3 * c1 - b1 * c3) * o01 - (b1 * c2 - b2 * c1) * o02 + a1 * hd
+  · linear_combination (-(b2 * c3 - b3 * c2)) * o01 - (b3 * c1 - b1 * c3) * n1 - (b1 * c2 - b2 * c1) * o12 + a2 * hd
+  · linear_combination (-(b2 * c3 - b3 * c2)) * o02 - (b3 * c1 - b1 * c3) * o12 - (b1 * c2 - b2 * c1) * n2 + a3 * hd
+  · linear_combination (-(c2 * a3 - c3 * a2)) * n0 - (c3 * a1 - c1 * a3) * o01 - (c1 * a2 - c2 * a1) * o02 + b1 * hd
+  · linear_combination (-(c2 * a3 - c3 * a2)) * o01 - (c3 * a1 - c1 * a3) * n1 - (c1 * a2 - c2 * a1) * o12 + b2 * hd
+  · linear_combination (-(c2 * a3 - c3 * a2)) * o02 - (c3 * a1 - c1 * a3) * o12 - (c1 * a2 - c2 * a1) * n2 + b3 * hd
+  · linear_combination (-(a2 * b3 - a3 * b2)) * n0 - (a3 * b1 - a1 * b3) * o01 - (a1 * b2 - a2 * b1) * o02 + c1 * hd
+  · linear_combination (-(a2 * b3 - a3 * b2)) * o01 - (a3 * b1 - a1 * b3) * n1 - (a1 * b2 - a2 * b1) * o12 + c2 * hd
+  · linear_combination (-(a2 * b3 - a3 * b2)) * o02 - (a3 * b1 - a1 * b3) * o12 - (a1 * b2 - a2 * b1) * n2 + c3 * hd
+
+/-- proper rotations preserve the cross product -/
+theorem cross_rotate (m : M3 K) (a b : P3 K) (h : Orthonormal m) (hd : det m = 1) :
+    mulVec m (cross a b) = cross (mulVec m a) (mulVec m b) := by
+  obtain ⟨e0, e1, e2⟩ := proper_rows m h hd
+  obtain ⟨⟨a1, a2, a3⟩, ⟨b1, b2, b3⟩, ⟨c1, c2, c3⟩⟩ := m
+  obtain ⟨x, y, z⟩ := a
+  obtain ⟨x', y', z'⟩ := b
+  simp only [cross, P3.mk.injEq] at e0 e1 e2
+  obtain ⟨e0x, e0y, e0z⟩ := e0
+  obtain ⟨e1x, e1y, e1z⟩ := e1
+  obtain ⟨e2x, e2y, e2z⟩ := e2
+  apply P3.ext' <;> simp only [mulVec, cross, dot]
+  · linear_combination (-(y * z' - z * y')) * e0x - (z * x' - x * z') * e0y - (x * y' - y * x') * e0z
+  · linear_combination (-(y * z' - z * y')) * e1x - (z * x' - x * z') * e1y - (x * y' - y * x') * e1z
+  · linear_combination (-(y * z' - z * y')) * e2x - (z * x' - x * z') * e2y - (x * y' - y * x') * e2z
+
+/-! ## 3. `direct_isometry_3d` -/
+
+/-- a right-handed orthonormal frame has determinant one -/
+theorem frame_det (i j : P3 K) (hi : dot i i = 1) (hj : dot j j = 1) (hij : dot i j = 0) :
+    det ⟨i, j, cross i j⟩ = 1 := by
+  have e : det ⟨i, j, cross i j⟩ = dot (cross i j) (cross i j) := by
+    simp only [det, dot, cross]; ring
+  rw [e, cross_nsq, hi, hj, hij]; ring
+
+theorem mulVec_mmul (a b : M3 K) (v : P3 K) : mulVec (mmul a b) v = mulVec a (mulVec b v) := by
+  obtain ⟨⟨a1, a2, a3⟩, ⟨b1, b2, b3⟩, ⟨c1, c2, c3⟩⟩ := a
+  obtain ⟨⟨d1, d2, d3⟩, ⟨e1, e2, e3⟩, ⟨f1, f2, f3⟩⟩ := b
+  obtain ⟨x, y, z⟩ := v
+  apply P3.ext' <;> simp only [mmul, mulVec, vecMul, dot, M3.col0, M3.col1, M3.col2] <;> ring
+
+/-- `direct_isometry_3d` returns the proper rotation `M` and translation `P` with
+    `M î = û`, `M ĵ = v̂`, `M (î × ĵ) = û × v̂`, `M A + P = B`. -/
+theorem isometry3d_spec (a i j b u v : P3 K)
+    (hi : dot i i = 1) (hj : dot j j = 1) (hij : dot i j = 0)
+    (hu : dot u u = 1) (hv : dot v v = 1) (huv : dot u v = 0) :
+    let mp := isometry3d a i j b u v
+    mulVec mp.1 i = u ∧ mulVec mp.1 j = v ∧ mulVec mp.1 (cross i j) = cross u v ∧
+    vadd (mulVec mp.1 a) mp.2 = b ∧ Orthonormal mp.1 ∧ det mp.1 = 1 := by
+  intro mp
+  have hdep := frame_orthonormal i j hi hj hij
+  have harr := frame_orthonormal u v hu hv huv
+  have hm : mp.1 = mmul (M3.transpose ⟨u, v, cross u v⟩) ⟨i, j, cross i j⟩ := rfl
+  have hp : mp.2 = vsub b (mulVec mp.1 a) := rfl
+  have hkk : dot (cross i j) (cross i j) = 1 := hdep.n2
+  have hik : dot (cross i j) i = 0 := by simp only [dot, cross]; ring
+  have hjk : dot (cross i j) j = 0 := by simp only [dot, cross]; ring
+  have hji : dot j i = 0 := by rw [← hij]; simp only [dot]; ring
+  have key : ∀ x : P3 K, mulVec mp.1 x =
+      ⟨u.x * dot i x + v.x * dot j x + (cross u v).x * dot (cross i j) x,
+       u.y * dot i x + v.y * dot j x + (cross u v).y * dot (cross i j) x,
+       u.z * dot i x + v.z * dot j x + (cross u v).z * dot (cross i j) x⟩ := by
+    intro x
+    rw [hm]
+    apply P3.ext' <;>
+      simp only [mmul, mulVec, vecMul, dot, M3.transpose, M3.col0, M3.col1, M3.col2] <;> ring
+  refine ⟨?_, ?_, ?_, ?_, ?_, ?_⟩
+  · rw [key, hi, hji, hik]; apply P3.ext' <;> simp
+  · rw [key, hij, hj, hjk]; apply P3.ext' <;> simp
+  · rw [key, dot_cross_left, dot_cross_right, hkk]; apply P3.ext' <;> simp
+  · rw [hp]; apply P3.ext' <;> simp only [vadd, vsub] <;> ring
+  · rw [hm]; exact mmul_orthonormal_rows _ _ (orthonormal_transpose _ harr) hdep
+  · rw [hm, det_mmul, det_transpose, frame_det u v hu hv huv, frame_det i j hi hj hij]; ring
+
+end algebra
+
+/-! ## 4. grids -/
+
+section box
+variable {α : Type} [LE α] [DecidableLE α]
+
+/-- `points_in_rectbox`: inclusive bounds; an absent bound imposes nothing -/
+theorem rectbox_iff (p : P3 α) (xmin xmax ymin ymax zmin zmax : Option α) :
+    inRectbox p xmin xmax ymin ymax zmin zmax = true ↔
+      (∀ b, xmin = some b → b ≤ p.x) ∧ (∀ b, xmax = some b → p.x ≤ b) ∧
+      (∀ b, ymin = some b → b ≤ p.y) ∧ (∀ b, ymax = some b → p.y ≤ b) ∧
+      (∀ b, zmin = some b → b ≤ p.z) ∧ (∀ b, zmax = some b → p.z ≤ b) := by
+  have key : ∀ (o : Option α) (q : α → Prop) [DecidablePred q],
+      (o.all (fun b => decide (q b)) = true) ↔ ∀ b, o = some b → q b := by
+    intro o q _
+    cases o <;> simp
+  simp only [inRectbox, Bool.and_eq_true, key]
+  tauto
+end box
+
+section mesh
+variable {α : Type}
+
+/-- the flattened meshgrid has `nx * ny * nz` points -/
+theorem gridPoints_length (xs ys zs : List α) :
+    (gridPoints xs ys zs).length = xs.length * ys.length * zs.length := by
+  unfold gridPoints
+  rw [flatMap_uniform_length _ (ys.length * zs.length), Nat.mul_assoc]
+  intro x
+  rw [flatMap_uniform_length _ zs.length]
+  intro y; simp
+
+/-- documented x-major (C order, `indexing="ij"`) flattening of the grid -/
+theorem gridPoints_order (xs ys zs : List α) (ix iy iz : Nat)
+    (hx : ix < xs.length) (hy : iy < ys.length) (hz : iz < zs.length) :
+    (gridPoints xs ys zs)[(ix * ys.length + iy) * zs.length + iz]? = some ⟨xs[ix], ys[iy], zs[iz]⟩ := by
+  unfold gridPoints
+  have h1 : ∀ (x : α) (y : α), (zs.map (fun z => (⟨x, y, z⟩ : P3 α))).length = zs.length := by
+    intro x y; simp
+  have h2 : ∀ x : α, (ys.flatMap (fun y => zs.map (fun z => (⟨x, y, z⟩ : P3 α)))).length
+      = ys.length * zs.length := fun x => flatMap_uniform_length _ _ (h1 x) ys
+  have e : (ix * ys.length + iy) * zs.length + iz = ix * (ys.length * zs.length) + (iy * zs.length + iz) := by
+    rw [Nat.add_mul, Nat.mul_assoc, Nat.add_assoc]
+  have hlt : iy * zs.length + iz < ys.length * zs.length := by
+    calc iy * zs.length + iz < iy * zs.length + zs.length := by omega
+      _ = (iy + 1) * zs.length := by rw [Nat.succ_mul]
+      _ ≤ ys.length * zs.length := Nat.mul_le_mul_right _ hy
+  rw [e, flatMap_uniform_getElem? _ _ h2 xs ix _ hx hlt,
+    flatMap_uniform_getElem? _ _ (h1 _) ys iy iz hy hz]
+  simp [hz]
+end mesh
+
+section grids
+variable {K : Type} [Field K]
+
+/-- `np.linspace(a, b, n)` has `n` samples -/
+theorem linspace_length (a b : K) (n : Nat) : (linspace (fun n : ℕ => (n : K)) a b n).length = n := by
+  unfold linspace
+  split_ifs with h0 h1
+  · simp [h0]
+  · simp [h1]
+  · simp
+
+theorem linspace_one (a b : K) : linspace (fun n : ℕ => (n : K)) a b 1 = [a] := by
+  simp [linspace]
+
+theorem linspace_zero (a b : K) : linspace (fun n : ℕ => (n : K)) a b 0 = [] := by
+  simp [linspace]
+
+variable [LinearOrder K] [IsStrictOrderedRing K]
+
+/-- evenly spaced -/
+theorem linspace_even (a b : K) (n k : Nat) (hn : 2 ≤ n) (hk : k < n) :
+    (linspace (fun n : ℕ => (n : K)) a b n)[k]? = some (a + k * (b - a) / ((n : K) - 1)) := by
+  have h0 : n ≠ 0 := by omega
+  have h1 : n ≠ 1 := by omega
+  have hc : ((n - 1 : ℕ) : K) = (n : K) - 1 := by
+    rw [Nat.cast_sub (by omega)]; simp
+  have hne : (n : K) - 1 ≠ 0 := by
+    rw [← hc]; exact Nat.cast_ne_zero.mpr (by omega)
+  unfold linspace
+  simp only [if_neg h0, if_neg h1, List.getElem?_map, List.getElem?_range hk, Option.map_some]
+  congr 1
+  split_ifs with hkn
+  · rw [hkn, hc]; field_simp; ring
+  · rw [hc]; field_simp; ring
+
+/-- for `n ≥ 2` the first sample is `a` -/
+theorem linspace_first (a b : K) (n : Nat) (hn : 2 ≤ n) :
+    (linspace (fun n : ℕ => (n : K)) a b n).head? = some a := by
+  rw [List.head?_eq_getElem?, linspace_even a b n 0 hn (by omega)]
+  simp
+
+/-- for `n ≥ 2` the last sample is `b` -/
+theorem linspace_last (a b : K) (n : Nat) (hn : 2 ≤ n) :
+    (linspace (fun n : ℕ => (n : K)) a b n).getLast? = some b := by
+  rw [List.getLast?_eq_getElem?, linspace_length, linspace_even a b n (n - 1) hn (by omega)]
+  have hc : ((n - 1 : ℕ) : K) = (n : K) - 1 := by
+    rw [Nat.cast_sub (by omega)]; simp
+  have hne : (n : K) - 1 ≠ 0 := by
+    rw [← hc]; exact Nat.cast_ne_zero.mpr (by omega)
+  rw [hc]; congr 1; field_simp; ring
+
+variable [FloorRing K]
+
+/-- round half to even (Python `round`) -/
+def roundHalfEven (x : K) : Int :=
+  let f := ⌊x⌋
+  let d := x - f
+  if d < 1/2 then f else if 1/2 < d then f + 1 else if f % 2 = 0 then f else f + 1
+
+/-- round-half-even is within `1/2` of its argument -/
+theorem roundHalfEven_near (x : K) : |((roundHalfEven x : ℤ) : K) - x| ≤ 1/2 := by
+  have h1 := Int.floor_le x
+  have h2 := Int.lt_floor_add_one x
+  unfold roundHalfEven
+  simp only
+  rw [abs_le]
+  split_ifs with c1 c2 c3
+  · constructor <;> linarith
+  · push_cast; constructor <;> linarith
+  · have : x - ⌊x⌋ = 1/2 := le_antisymm (not_lt.mp c2) (not_lt.mp c1)
+    constructor <;> linarith
+  · have : x - ⌊x⌋ = 1/2 := le_antisymm (not_lt.mp c2) (not_lt.mp c1)
+    push_cast; constructor <;> linarith
+
+omit [IsStrictOrderedRing K] in
+theorem floor_le_roundHalfEven (x : K) : ⌊x⌋ ≤ roundHalfEven x := by
+  unfold roundHalfEven
+  simp only
+  split_ifs <;> omega
+
+/-- anything `≥ 3/2` rounds (half to even) to at least 2 -/
+theorem two_le_roundHalfEven (x : K) (hx : 3 / 2 ≤ x) : 2 ≤ roundHalfEven x := by
+  have h1 : (1 : ℤ) ≤ ⌊x⌋ := by rw [Int.le_floor]; push_cast; linarith
+  unfold roundHalfEven
+  simp only
+  by_cases h2 : 2 ≤ ⌊x⌋
+  · split_ifs <;> omega
+  · have hf : ⌊x⌋ = 1 := by omega
+    have hd : ¬ (x - ((⌊x⌋ : ℤ) : K) < 1 / 2) := by rw [hf]; push_cast; linarith
+    rw [if_neg hd]; split_ifs <;> omega
+
+/-- anything in `[1, 3/2)` rounds to 1 -/
+theorem roundHalfEven_eq_one (x : K) (h1 : 1 ≤ x) (h2 : x < 3 / 2) : roundHalfEven x = 1 := by
+  have hf : ⌊x⌋ = 1 := by
+    rw [Int.floor_eq_iff]; push_cast; constructor <;> linarith
+  unfold roundHalfEven
+  simp only
+  have hd : x - ((⌊x⌋ : ℤ) : K) < 1 / 2 := by rw [hf]; push_cast; linarith
+  rw [if_pos hd, hf]
+
+/-- the number of points is the nearest integer to `(hi - lo)/d + 1` (for every positive pixel) -/
+theorem axisNum_near (lo hi d : K) (hlh : lo ≤ hi) (hd : 0 < d) :
+    |((axisNum roundHalfEven (fun x : K => |x|) lo hi d : ℕ) : K) - ((hi - lo) / d + 1)| ≤ 1 / 2 := by
+  simp only [axisNum]
+  have hx : (|hi - lo| + d) / d = (hi - lo) / d + 1 := by
+    rw [abs_of_nonneg (by linarith)]; field_simp
+  have h1 : (1 : K) ≤ (|hi - lo| + d) / d := by
+    rw [hx]; have : 0 ≤ (hi - lo) / d := div_nonneg (by linarith) hd.le
+    linarith
+  have hf : (1 : ℤ) ≤ ⌊(|hi - lo| + d) / d⌋ := by
+    rw [Int.le_floor]; exact_mod_cast h1
+  have hnn : 0 ≤ roundHalfEven ((|hi - lo| + d) / d) := by
+    have := floor_le_roundHalfEven ((|hi - lo| + d) / d); omega
+  have hcast : (((roundHalfEven ((|hi - lo| + d) / d)).toNat : ℕ) : K)
+      = ((roundHalfEven ((|hi - lo| + d) / d) : ℤ) : K) := by
+    rw [← Int.cast_natCast, Int.toNat_of_nonneg hnn]
+  rw [hcast, ← hx]
+  exact roundHalfEven_near _
+
+/-- at least two points as soon as the pixel is at most twice the extent -/
+theorem axisNum_ge_two_wide (lo hi d : K) (hlh : lo < hi) (hd : 0 < d) (hd' : d ≤ 2 * (hi - lo)) :
+    2 ≤ axisNum roundHalfEven (fun x : K => |x|) lo hi d := by
+  simp only [axisNum]
+  have hx : (3 / 2 : K) ≤ (|hi - lo| + d) / d := by
+    rw [abs_of_pos (by linarith), le_div_iff₀ hd]; linarith
+  have := two_le_roundHalfEven _ hx
+  omega
+
+/-- at least two points when the pixel is at most the extent -/
+theorem axisNum_ge_two (lo hi d : K) (hlh : lo < hi) (hd : 0 < d) (hd' : d ≤ hi - lo) :
+    2 ≤ axisNum roundHalfEven (fun x : K => |x|) lo hi d :=
+  axisNum_ge_two_wide lo hi d hlh hd (by linarith)
+
+/-- number of points of a grid axis: nearest integer to `(hi - lo)/d + 1`, and at least 2 -/
+theorem axisNum_nearest (lo hi d : K) (hlh : lo < hi) (hd : 0 < d) (hd' : d ≤ hi - lo) :
+    |((axisNum roundHalfEven (fun x : K => |x|) lo hi d : ℕ) : K) - ((hi - lo) / d + 1)| ≤ 1 / 2
+    ∧ 2 ≤ axisNum roundHalfEven (fun x : K => |x|) lo hi d :=
+  ⟨axisNum_near lo hi d hlh.le hd, axisNum_ge_two lo hi d hlh hd hd'⟩
+
+/-- both bounds are grid points as soon as the pixel is at most twice the extent -/
+theorem gridAxis_bounds_wide (lo hi d : K) (hlh : lo < hi) (hd : 0 < d) (hd' : d ≤ 2 * (hi - lo)) :
+    (gridAxis (fun n : ℕ => (n : K)) roundHalfEven (fun x : K => |x|) lo hi d).head? = some lo ∧
+    (gridAxis (fun n : ℕ => (n : K)) roundHalfEven (fun x : K => |x|) lo hi d).getLast? = some hi := by
+  unfold gridAxis
+  rw [if_neg (ne_of_lt hlh)]
+  exact ⟨linspace_first _ _ _ (axisNum_ge_two_wide lo hi d hlh hd hd'),
+    linspace_last _ _ _ (axisNum_ge_two_wide lo hi d hlh hd hd')⟩
+
+/-- both bounds are grid points (first and last) -/
+theorem gridAxis_bounds (lo hi d : K) (hlh : lo < hi) (hd : 0 < d) (hd' : d ≤ hi - lo) :
+    (gridAxis (fun n : ℕ => (n : K)) roundHalfEven (fun x : K => |x|) lo hi d).head? = some lo ∧
+    (gridAxis (fun n : ℕ => (n : K)) roundHalfEven (fun x : K => |x|) lo hi d).getLast? = some hi :=
+  gridAxis_bounds_wide lo hi d hlh hd (by linarith)
+
+/-- **the hypothesis on the pixel size is necessary**: when the pixel is more than twice the
+    extent the axis degenerates to the single point `lo` and the upper bound `hi` is *not* a grid
+    point -/
+theorem gridAxis_coarse (lo hi d : K) (hlh : lo < hi) (hd' : 2 * (hi - lo) < d) :
+    gridAxis (fun n : ℕ => (n : K)) roundHalfEven (fun x : K => |x|) lo hi d = [lo] := by
+  have hd : 0 < d := by linarith
+  have hx1 : (1 : K) ≤ (|hi - lo| + d) / d := by
+    rw [abs_of_pos (by linarith), le_div_iff₀ hd]; linarith
+  have hx2 : (|hi - lo| + d) / d < 3 / 2 := by
+    rw [abs_of_pos (by linarith), div_lt_iff₀ hd]; linarith
+  have hn : axisNum roundHalfEven (fun x : K => |x|) lo hi d = 1 := by
+    simp only [axisNum]; rw [roundHalfEven_eq_one _ hx1 hx2]; rfl
+  unfold gridAxis
+  rw [if_neg (ne_of_lt hlh), hn, linspace_one]
+
+omit [IsStrictOrderedRing K] in
+/-- a degenerate axis (`lo = hi`) is the single value `lo` -/
+theorem gridAxis_degenerate (lo d : K) :
+    gridAxis (fun n : ℕ => (n : K)) roundHalfEven (fun x : K => |x|) lo lo d = [lo] := by
+  simp [gridAxis]
+
+omit [IsStrictOrderedRing K] in
+/-- `ceil(size/pixel + 1) | 1` is odd -/
+theorem centredNum_odd (size pixel : K) : centredNum Int.ceil 1 size pixel % 2 = 1 := by
+  unfold centredNum
+  simp only
+  split_ifs with h
+  · exact h
+  · omega
+
+omit [IsStrictOrderedRing K] in
+/-- and at least the ceiling (no sign hypothesis needed) -/
+theorem centredNum_ge (size pixel : K) :
+    ⌈size / pixel + 1⌉ ≤ (centredNum Int.ceil 1 size pixel : ℤ) := by
+  unfold centredNum
+  simp only
+  have := Int.self_le_toNat ⌈size / pixel + 1⌉
+  split_ifs with h
+  · exact this
+  · push_cast; omega
+
+omit [IsStrictOrderedRing K] in
+/-- it is the *smallest* odd natural number that is ≥ the ceiling -/
+theorem centredNum_least (size pixel : K) (m : ℕ) (hm : m % 2 = 1) (h : ⌈size / pixel + 1⌉ ≤ (m : ℤ)) :
+    centredNum Int.ceil 1 size pixel ≤ m := by
+  unfold centredNum
+  simp only
+  have h1 : ⌈size / pixel + 1⌉.toNat ≤ m := by omega
+  split_ifs with h2
+  · exact h1
+  · omega
+
+/-- hence, as a number, it is at least `size / pixel + 1` -/
+theorem centredNum_ge_cast (size pixel : K) :
+    size / pixel + 1 ≤ (centredNum Int.ceil 1 size pixel : K) := by
+  have h1 := centredNum_ge size pixel
+  have h2 : size / pixel + 1 ≤ ((⌈size / pixel + 1⌉ : ℤ) : K) := Int.le_ceil _
+  have h3 : ((⌈size / pixel + 1⌉ : ℤ) : K) ≤ ((centredNum Int.ceil 1 size pixel : ℤ) : K) := by
+    exact_mod_cast h1
+  calc size / pixel + 1 ≤ _ := h2
+    _ ≤ _ := h3
+    _ = _ := by push_cast; rfl
+end grids
+
+/-! ## 5. spherical coordinates -/
+
+/-- spherical coordinates `(r, θ, φ)` (ISO convention: polar angle from `z`, azimuth by atan2)
+    invert back to the Cartesian point -/
+theorem spherical_inverse (x y z : ℝ) (hr : 0 < Real.sqrt (x ^ 2 + y ^ 2 + z ^ 2)) :
+    let r := Real.sqrt (x ^ 2 + y ^ 2 + z ^ 2)
+    let θ := Real.arccos (z / r)
+    let φ := Complex.arg ⟨x, y⟩
+    (0 ≤ θ ∧ θ ≤ Real.pi) ∧ (-Real.pi < φ ∧ φ ≤ Real.pi) ∧
+    r * Real.sin θ * Real.cos φ = x ∧ r * Real.sin θ * Real.sin φ = y ∧ r * Real.cos θ = z := by
+  intro r θ φ
+  have hr' : 0 < r := hr
+  have hS : 0 ≤ x ^ 2 + y ^ 2 + z ^ 2 := by positivity
+  have hrr : r ^ 2 = x ^ 2 + y ^ 2 + z ^ 2 := Real.sq_sqrt hS
+  have hzr : z ^ 2 ≤ r ^ 2 := by rw [hrr]; nlinarith [sq_nonneg x, sq_nonneg y]
+  have habs : |z| ≤ r := by
+    rw [← abs_of_pos hr']; exact sq_le_sq.mp hzr
+  have hz1 : -1 ≤ z / r := by
+    rw [le_div_iff₀ hr']; have := neg_abs_le z; linarith
+  have hz2 : z / r ≤ 1 := by
+    rw [div_le_iff₀ hr']; have := le_abs_self z; linarith
+  have hcos : Real.cos θ = z / r := Real.cos_arccos hz1 hz2
+  set ρ := Real.sqrt (x ^ 2 + y ^ 2) with hρ
+  have hρ0 : 0 ≤ ρ := Real.sqrt_nonneg _
+  have hρρ : ρ ^ 2 = x ^ 2 + y ^ 2 := Real.sq_sqrt (by positivity)
+  have hsin : r * Real.sin θ = ρ := by
+    have h1 : Real.sin θ = Real.sqrt (1 - (z / r) ^ 2) := Real.sin_arccos _
+    have h2 : 1 - (z / r) ^ 2 = (x ^ 2 + y ^ 2) / r ^ 2 := by
+      have hr2 : r ^ 2 ≠ 0 := by positivity
+      rw [div_pow, eq_div_iff hr2, sub_mul, div_mul_cancel₀ _ hr2]; linarith [hrr]
+    rw [h1, h2, Real.sqrt_div (by positivity), Real.sqrt_sq hr'.le, ← hρ]
+    field_simp
+  have hnorm : ‖(⟨x, y⟩ : ℂ)‖ = ρ := by
+    rw [Complex.norm_def, Complex.normSq_mk, hρ]; congr 1; ring
+  refine ⟨⟨Real.arccos_nonneg _, Real.arccos_le_pi _⟩, ⟨(Complex.arg_mem_Ioc _).1, (Complex.arg_mem_Ioc _).2⟩,
+    ?_, ?_, ?_⟩
+  · rw [hsin]
+    by_cases h0 : ρ = 0
+    · have : x ^ 2 + y ^ 2 = 0 := by rw [← hρρ, h0]; ring
+      have hx : x = 0 := by nlinarith [sq_nonneg x, sq_nonneg y]
+      rw [h0, hx]; ring
+    · have hne : (⟨x, y⟩ : ℂ) ≠ 0 := by
+        intro h; apply h0; rw [← hnorm, h, norm_zero]
+      show ρ * Real.cos (Complex.arg ⟨x, y⟩) = x
+      rw [Complex.cos_arg hne, hnorm]; field_simp
+  · rw [hsin]
+    show ρ * Real.sin (Complex.arg ⟨x, y⟩) = y
+    rw [Complex.sin_arg, hnorm]
+    by_cases h0 : ρ = 0
+    · have : x ^ 2 + y ^ 2 = 0 := by rw [← hρρ, h0]; ring
+      have hy : y = 0 := by nlinarith [sq_nonneg x, sq_nonneg y]
+      rw [h0, hy]; simp
+    · show ρ * (y / ρ) = y
+      field_simp
+  · rw [hcos]; field_simp
+
+/-! ### over `ℝ` -/
+
+/-- `rotation_matrix_ypr(yaw, pitch, roll)` is a proper rotation for all real angles -/
+theorem rotYpr_real_proper (y p r : ℝ) :
+    Orthonormal (rotYpr 0 1 (Real.cos y) (Real.sin y) (Real.cos p) (Real.sin p) (Real.cos r) (Real.sin r))
+    ∧ det (rotYpr 0 1 (Real.cos y) (Real.sin y) (Real.cos p) (Real.sin p) (Real.cos r) (Real.sin r)) = 1 := by
+  have h : ∀ t : ℝ, Real.cos t * Real.cos t + Real.sin t * Real.sin t = 1 := by
+    intro t; have := Real.cos_sq_add_sin_sq t; rw [sq, sq] at this; exact this
+  exact rotYpr_proper _ _ _ _ _ _ (h y) (h p) (h r)
+
+/-- hence it preserves distances and cross products -/
+theorem rotYpr_real_isometry (y p r : ℝ) (c c' : P3 ℝ) (centre : Option (P3 ℝ)) :
+    let m := rotYpr 0 1 (Real.cos y) (Real.sin y) (Real.cos p) (Real.sin p) (Real.cos r) (Real.sin r)
+    nsq (vsub (rotate c m centre) (rotate c' m centre)) = nsq (vsub c c') ∧
+    mulVec m (cross c c') = cross (mulVec m c) (mulVec m c') := by
+  intro m
+  obtain ⟨h, hd⟩ := rotYpr_real_proper y p r
+  exact ⟨rotate_isometry' c c' m centre h, cross_rotate m c c' h hd⟩
+
+/-! ## 6. non-vacuity: the hypotheses are satisfiable and the conclusions are the expected numbers -/
+
+section examples
+
+/-- a rational rotation about `z` (3-4-5 triangle) -/
+def r345 : M3 ℚ := rotZ 0 1 (3/5) (4/5)
+
+example : Orthonormal r345 ∧ Orthonormal r345.transpose ∧ det r345 = 1 :=
+  have h := rotZ_orthonormal (3/5 : ℚ) (4/5) (by norm_num)
+  ⟨h, orthonormal_transpose _ h, rotZ_det _ _ (by norm_num)⟩
+
+example : toGcs (fromGcs ⟨1, 2, 3⟩ r345 ⟨7, 8, 9⟩) r345 ⟨7, 8, 9⟩ = (⟨1, 2, 3⟩ : P3 ℚ) :=
+  to_from_gcs' _ _ _ (rotZ_orthonormal _ _ (by norm_num))
+
+example : fromGcs (⟨1, 2, 3⟩ : P3 ℚ) r345 ⟨0, 0, 0⟩ = ⟨-1, 2, 3⟩ := by
+  simp only [fromGcs, r345, rotZ, mulVec, vsub, dot]; norm_num
+
+/-- a non-orthonormal basis: the inverse law fails, so the hypothesis is needed -/
+example : fromGcs (toGcs (⟨1, 0, 0⟩ : P3 ℚ) ⟨⟨2, 0, 0⟩, ⟨0, 1, 0⟩, ⟨0, 0, 1⟩⟩ ⟨0, 0, 0⟩)
+    ⟨⟨2, 0, 0⟩, ⟨0, 1, 0⟩, ⟨0, 0, 1⟩⟩ ⟨0, 0, 0⟩ ≠ ⟨1, 0, 0⟩ := by
+  simp only [fromGcs, toGcs, mulVec, vecMul, vadd, vsub, dot, M3.col0, M3.col1, M3.col2]; norm_num
+
+/-- the yaw–pitch–roll matrix of three 3-4-5 angles -/
+example : Orthonormal (rotYpr (0 : ℚ) 1 (3/5) (4/5) (4/5) (3/5) (5/13) (12/13)) ∧
+    det (rotYpr (0 : ℚ) 1 (3/5) (4/5) (4/5) (3/5) (5/13) (12/13)) = 1 :=
+  rotYpr_proper _ _ _ _ _ _ (by norm_num) (by norm_num) (by norm_num)
+
+/-- `direct_isometry_3d` from the frame `(x̂, ŷ)` at `A = (1,1,1)` to the frame `(ŷ, ẑ)` at `B = (0,0,5)` -/
+example : isometry3d (⟨1, 1, 1⟩ : P3 ℚ) ⟨1, 0, 0⟩ ⟨0, 1, 0⟩ ⟨0, 0, 5⟩ ⟨0, 1, 0⟩ ⟨0, 0, 1⟩
+    = (⟨⟨0, 0, 1⟩, ⟨1, 0, 0⟩, ⟨0, 1, 0⟩⟩, ⟨-1, -1, 4⟩) := by
+  simp only [isometry3d, mmul, mulVec, vecMul, vsub, cross, dot, M3.transpose, M3.col0, M3.col1, M3.col2]
+  norm_num
+
+example : (linspace (fun n : ℕ => (n : ℚ)) 0 1 5) = [0, 1/4, 1/2, 3/4, 1] := by
+  simp [linspace, List.range, List.range.loop]; norm_num
+
+example : roundHalfEven (5/2 : ℚ) = 2 ∧ roundHalfEven (7/2 : ℚ) = 4 ∧ roundHalfEven (8/3 : ℚ) = 3 := by
+  refine ⟨?_, ?_, ?_⟩ <;> simp only [roundHalfEven] <;> norm_num
+
+/-- `Grid(0, 1, pixel 1/4)` has 5 points per axis -/
+example : axisNum roundHalfEven (fun x : ℚ => |x|) 0 1 (1/4) = 5 := by
+  simp only [axisNum, roundHalfEven]; norm_num; rfl
+
+/-- pixel 3 on the extent `[0, 1]`: one point only, `hi = 1` is lost (see `gridAxis_coarse`) -/
+example : gridAxis (fun n : ℕ => (n : ℚ)) roundHalfEven (fun x : ℚ => |x|) 0 1 3 = [0] :=
+  gridAxis_coarse 0 1 3 (by norm_num) (by norm_num)
+
+example : (gridPoints [0, 1] [2, 3] [4, 5] : List (P3 ℚ)).length = 8 := rfl
+example : (gridPoints [0, 1] [2, 3] [4, 5] : List (P3 ℚ))[(1 * 2 + 0) * 2 + 1]? = some ⟨1, 2, 5⟩ := rfl
+
+example : centredNum Int.ceil (1 : ℚ) 10 3 = 5 ∧ centredNum Int.ceil (1 : ℚ) 9 3 = 5 ∧
+    centredNum Int.ceil (1 : ℚ) 12 3 = 5 ∧ centredNum Int.ceil (1 : ℚ) 13 3 = 7 := by
+  refine ⟨?_, ?_, ?_, ?_⟩ <;> simp only [centredNum] <;> norm_num <;> rfl
+
+example : inRectbox (⟨1, 2, 3⟩ : P3 ℚ) (some 1) none none (some 2) (some 0) (some 3) = true := by
+  simp [inRectbox]
+example : inRectbox (⟨1, 2, 3⟩ : P3 ℚ) (some 1) none none (some 2) (some 0) (some (29/10)) = false := by
+  simp [inRectbox]; norm_num
+example : inRectbox (⟨1, 2, 3⟩ : P3 ℚ) none none none none none none = true := rfl
+
+end examples
 end Arim.C17
